@@ -204,15 +204,55 @@ def decide(pid, cfg, tier, seed, args):
         raise assemble.Undecided("lost anchor: baseline obligations no longer generated: %s" % missing[:5])
     # ---- known findings
     kf = load_json(os.path.join(VERIF, 'known_findings.json'))
-    open_findings = [k for k in kf.get('findings', []) if k.get('status') == 'open' and k['property'] == pid]
+    all_open = [k for k in kf.get('findings', []) if k.get('status') == 'open']
+    open_findings = [k for k in all_open if k['property'] == pid]
     violations = []
     known_reported = []
+    foreign_known = []
+    foreign_only = set()   # obligations whose only rejected clause is a finding listed under another property
     undecided = []
+
+    def clause_of(e):
+        cl = e.get('clause_line')
+        return gen_lines[cl - 1].strip() if cl and 0 < cl <= len(gen_lines) else ''
+
+    def finding_for(q, e):
+        """the open finding that explains error e of obligation q: same obligation and, when the finding names a clause,
+        a rejected postcondition whose text is that clause (any other rejection in the same function is NOT explained)"""
+        for k in all_open:
+            if k['obligation'] != q:
+                continue
+            if 'clause' not in k:
+                return k
+            if 'postcondition' in e['msg'] and k['clause'] in clause_of(e):
+                return k
+        return None
+
     for f in relevant:
         q = f['qual']
         if q not in failing:
             continue
         errs = failing[q]
+        explained = [(e, finding_for(q, e)) for e in errs]
+        if any(k is not None and 'clause' in k for e, k in explained):
+            # clause-level findings: drop the explained rejections; what remains is judged on its own
+            rest = [e for e, k in explained if k is None or 'clause' not in k]
+            for e, k in explained:
+                if k is not None and 'clause' in k:
+                    if k['property'] == pid:
+                        if k not in known_reported:
+                            known_reported.append(k)
+                    elif k not in foreign_known:
+                        foreign_known.append(k)
+            if not rest:
+                if all(k['property'] != pid for e, k in explained):
+                    foreign_only.add(q)
+                continue
+            if any(e['semantic'] for e in rest):
+                violations.append((f, rest))
+            else:
+                undecided.append((q, rest))
+            continue
         # undecided when the verifier gave no semantic verdict at all (only resource limits / unsupported constructs);
         # a semantic rejection next to an exhausted resource limit is still a rejection
         if not any(e['semantic'] for e in errs) or any((not e['semantic']) and (not e['rlimit']) for e in errs):
@@ -304,7 +344,7 @@ def decide(pid, cfg, tier, seed, args):
         for u in unstable:
             print("UNDECIDED property=%s unstable-under-seed=%s failing=%s" % (pid, u['seed'], u['failing']))
         rc = 2
-    discharged = [f for f in relevant if f['qual'] not in failing]
+    discharged = [f for f in relevant if f['qual'] not in failing or f['qual'] in foreign_only]
     n_extra_ok = sum(1 for o in extra_obl if o['status'] == 'ok')
     samples = []
     for f in relevant[:]:
@@ -317,7 +357,8 @@ def decide(pid, cfg, tier, seed, args):
     for f in relevant:
         t = timing(f)
         per_fn.append({"obligation": f['qual'], "backend": "verus", "mode": f['mode'],
-                       "status": "refuted" if f['qual'] in failing else "discharged",
+                       "status": ("discharged (one clause of this function is a finding listed under another property)" if f['qual'] in foreign_only
+                                  else "refuted" if f['qual'] in failing else "discharged"),
                        "solver_time_ms": t['time_ms'] if t else None,
                        "repo": ("%s:%d-%d" % (f['item']['file'], f['item']['line_start'], f['item']['line_end'])) if f['item'] else None,
                        "sha256": f['item']['sha256'] if f['item'] else None,
@@ -348,6 +389,7 @@ def decide(pid, cfg, tier, seed, args):
             "dropped_by_extraction": trusted.get('dropped', []),
             "assumption_scan": scan,
             "known_findings_reported": [k['what'] for k in known_reported],
+            "known_findings_of_other_properties_on_shared_obligations": [k['id'] for k in foreign_known],
             "unstable": unstable,
             "selftest": selftest_log,
             "extraction_fidelity": fidelity,
